@@ -31,9 +31,11 @@ pub uninterp spec fn str_of(s: Seq<char>) -> String;
 pub broadcast axiom fn axiom_str_canon(v: String)
     ensures #[trigger] str_of(v@) == v;
 pub broadcast axiom fn axiom_str_of_view(s: Seq<char>)
-    // (a String holds at most isize::MAX bytes, hence at most that many characters; audit P2: the bound usize::MAX was
-    // too generous)
-    ensures s.len() <= 0x7fff_ffff_ffff_ffff ==> (#[trigger] str_of(s))@ == s;
+    // only for texts of at most 16 320 characters (<= 0xFF00 bytes in UTF-8): no proof builds a longer string, and with a
+    // larger bound the input assumption axiom_addr_len (every address has at most 0xFF00 bytes) is refutable by
+    // constructing a 65 536-character address in spec code (audit P2 derived `false` that way; canary `addr_len` in
+    // prelude/cw_plus_ext.rs keeps that derivation failing)
+    ensures s.len() <= 0x3FC0 ==> (#[trigger] str_of(s))@ == s;
 pub proof fn lemma_str_eq(a: String, b: String)
     requires a@ == b@
     ensures a == b
